@@ -143,6 +143,8 @@ class C01(Prop):
             'random deeper ones; inputs: all strings up to the bound over {a,b,e-acute,clef}; kinds &str and &[char]; '
             'non-trivial = grammar contains a backtracking site and the input is non-empty; every (grammar,input) pair is distinct')
 
+    bins = ['h_str_rich', 'h_slice_rich', 'h_kinds_rich']
+
     def cases(self, tier, seed):
         rng = random.Random(seed)
         max_size = 3 if tier == 'quick' else 4
@@ -168,6 +170,20 @@ class C01(Prop):
             # the same grammar followed by "the remainder": the parse succeeds whenever the grammar matches a prefix, so the output
             # (value, every captured span, how much was consumed) is observed on most inputs instead of a bare rejection
             lines.append(case_line(f'h{n}', ('then', g, rest), inp, kind=kind))
+            n += 1
+        # the same semantics on an input that has to SEEK to follow the parser (IoInput behind Input::map, read through a reader that
+        # hands out two bytes per call): lookahead and backtracking move the cursor in both directions relative to the reader
+        io_alpha = [gen.A, gen.B, 99]
+        io_in = inputs_all(4, io_alpha)
+        a_, b_, c_ = ('just', [gen.A]), ('just', [gen.B]), ('just', [99])
+        two = ('then', ('any',), ('any',))
+        io_g = [('then', ('andis', two, ('any',)), ('any',)), ('then', ('andis', two, ('not', b_)), rest_any := ('collect', 'vec', ('rep', ('any',), 0, None))),
+                ('then', ('andis', ('just', [gen.A, gen.B]), a_), c_), ('then', ('rewind', two), two), ('then', ('not', ('then', a_, b_)), two),
+                ('then', ('ornot', ('then', a_, ('then', b_, c_))), rest_any), ('or', ('then', a_, ('then', b_, c_)), ('then', a_, two)),
+                ('then', ('andis', ('collect', 'vec', ('rep', a_, 1, None)), a_), rest_any),
+                ('collect', 'vec', ('rep', ('andis', two, ('any',)), 0, None)), ('then', ('andis', ('andis', two, a_), ('any',)), ('ornot', ('any',)))]
+        for g in io_g:
+            lines.append(case_line(f'i{n}', g, io_in, kind='iomap'))
             n += 1
         # the token sets / sequences of `one_of`, `none_of`, `just` handed over as every `Seq` / `OrderedSeq` implementation
         # (`container.rs`: String, &str, arrays, slices, ranges, a single token, references, hash / tree sets, linked list;
